@@ -25,6 +25,7 @@ def abstract_histories(maxops):
 def run(ctx: Ctx) -> Outcome:
     rng = random.Random(ctx.seed)
     z = Zygote()           # forked before this process touches typelib
+    pool = [z]
     try:
         hists, model = abstract_histories(4 if ctx.quick else 5)
         # only histories with at least two calls can show history dependence
@@ -39,14 +40,37 @@ def run(ctx: Ctx) -> Outcome:
                     cold[(fam, eq, d)] = r
         events, meta = [], []
         per_family = 170 if ctx.quick else 100000
+        # one more zygote per worker thread (each forked from this still-clean process); families are spread over them
+        import threading
+        nworkers = 4 if ctx.quick else 12
+        pool += [Zygote() for _ in range(nworkers - 1)]
+        results: dict = {}
+        errors: list = []
+
+        def work(zz, fams):
+            try:
+                for fam in fams:
+                    sel = hists if len(hists) <= per_family else random.Random(f"{ctx.seed}:{fam}").sample(hists, per_family)
+                    out = []
+                    for h in sel:
+                        ops = [{"op": o["op"], "eq": o["eq"], "d": o["d"], "target": o["target"]} for o in h]
+                        r = zz.ask({"kind": "history", "fam": fam, "ops": ops})
+                        if "error" in r:
+                            raise tlc.MachineryError(f"warm history failed: {fam} {ops}: {r['error']}")
+                        out.append((ops, r["recs"]))
+                    results[fam] = out
+            except BaseException as e:
+                errors.append(e)
+        threads = [threading.Thread(target=work, args=(pool[i], FAMILY_NAMES[i::nworkers])) for i in range(nworkers)]
+        for t in threads:
+            t.start()
+        for t in threads:
+            t.join()
+        if errors:
+            raise errors[0] if isinstance(errors[0], tlc.MachineryError) else tlc.MachineryError(repr(errors[0]))
         for fam in FAMILY_NAMES:
-            sel = hists if len(hists) <= per_family else rng.sample(hists, per_family)
-            for h in sel:
-                ops = [{"op": o["op"], "eq": o["eq"], "d": o["d"], "target": o["target"]} for o in h]
-                r = z.ask({"kind": "history", "fam": fam, "ops": ops})
-                if "error" in r:
-                    raise tlc.MachineryError(f"warm history failed: {fam} {ops}: {r['error']}")
-                for i, rec in enumerate(r["recs"]):
+            for ops, recs in results[fam]:
+                for i, rec in enumerate(recs):
                     if rec["op"] != "call":
                         continue
                     c = cold[(fam, rec["eq"], rec["d"])]
@@ -54,7 +78,8 @@ def run(ctx: Ctx) -> Outcome:
                                    "earlier_intact": rec["earlier_intact"]})
                     meta.append({"family": fam, "history": ops, "at": i, "eq": rec["eq"], "d": rec["d"]})
     finally:
-        z.close()
+        for zz in pool[::-1]:   # youngest first: a zygote forked later holds copies of the older ones' pipe ends
+            zz.close()
     tres, rejects = tlc.validate_trace("Caches_Trace", "Caches_Trace.cfg", events, timeout=7200)
     viol = []
     for r in rejects:
